@@ -142,7 +142,7 @@ def main():
     if a.replay:
         print('REPRODUCED ' + failures[0]['what'] if failures else 'not reproduced')
         return
-    print(json.dumps({'cases': len(cases), 'failures': failures, 'rule': 'default-layout 2-bit sources over a grid of cube shapes (below/at/above one and two 64-blocks per axis, '
+    print(json.dumps({'cases': len(cases), 'distinct_nontrivial': len(set(case_id(*c) for c in cases)), 'failures': failures, 'rule': 'default-layout 2-bit sources over a grid of cube shapes (below/at/above one and two 64-blocks per axis, '
                       'sample counts around 1024) x 0/2/3 stored header arrays x regular/irregular; adv file vs source under the spec oracle and the real reader',
                       'bound': f'{len(cases)} listed (shape, arrays, regularity) cases', 'samples': [case_id(*c) for c in cases[:4]]}))
 
